@@ -148,6 +148,12 @@ SPECS["C17"] = [
     FuncSpec(GEO, "rotation_matrix_y", "rotation_matrix_y", [("theta", K)]),
     FuncSpec(GEO, "rotation_matrix_z", "rotation_matrix_z", [("theta", K)]),
     FuncSpec(GEO, "rotation_matrix_ypr", "rotation_matrix_ypr", [("yaw", K), ("pitch", K), ("roll", K)]),
+    # the three einsum conventions, for one point (the leading axes of the arrays are elementwise): which index is summed
+    FuncSpec(GEO, "to_gcs", "to_gcs", [("coords_cs", "V"), ("bases", "M"), ("origins", "V")],
+             doc="one point: `coords_cs`, `origins` are rows of the (..., 3) arrays, `bases` the 3x3 basis of that point"),
+    FuncSpec(GEO, "from_gcs", "from_gcs", [("points_gcs", "V"), ("bases", "M"), ("origins", "V")], doc="one point"),
+    FuncSpec(GEO, "rotate", "rotate_about_origin", [("coords", "V"), ("rotation_matrix", "M")], absent=["centre"], doc="one point, `centre=None`"),
+    FuncSpec(GEO, "rotate", "rotate_about_centre", [("coords", "V"), ("rotation_matrix", "M"), ("centre", "V")], given=["centre"], doc="one point, a centre given"),
 ]
 IMPORTS["C17"] = ["ArimModel.Src", "ArimModel.Geometry"]
 USES["C16"] = ["C17"]
